@@ -483,6 +483,9 @@ func (r *checkRun) writeLedger() int {
 				}
 				continue
 			}
+			if o.OK() && o.TimeS > 1.0 {
+				fmt.Printf("      slow: %s %.1fs\n", o.Name, o.TimeS)
+			}
 			if o.OK() && o.TimeS <= limit {
 				lf.Discharged = append(lf.Discharged, o.Name)
 			} else {
